@@ -21,8 +21,11 @@ def native(request, timeout=120):
     env = dict(os.environ)
     env['PYTHONPATH'] = REPO + os.pathsep + VERIF
     env['PYVC_REPO'] = REPO
-    p = subprocess.run([NATIVE_PY, os.path.join(VERIF, 'pyvc', 'native.py')], input=json.dumps(request),
-                       capture_output=True, text=True, timeout=timeout, env=env, cwd=REPO)
+    try:
+        p = subprocess.run([NATIVE_PY, os.path.join(VERIF, 'pyvc', 'native.py')], input=json.dumps(request),
+                           capture_output=True, text=True, timeout=timeout, env=env, cwd=REPO)
+    except subprocess.TimeoutExpired:
+        return {'error': 'native child timed out after %ss' % timeout, 'timeout': True}
     if p.returncode != 0 and not p.stdout.strip():
         return {'error': 'native child failed', 'stderr': p.stderr[-2000:]}
     try:
